@@ -146,11 +146,18 @@ def gen_stack(rng):
                 fe["same_as_member"][0] += 1
         files.insert(pos, new)
     # empty values are assignments too: "" at a higher layer blanks what a lower layer set
-    overrides = [[rng.choice(SECTIONS[:4]), rng.choice(KEYS[:5] + ["Mixer"]), rng.choice(VALUES[:12] + ["", "", ""])]
+    # key spellings that differ only in case are DIFFERENT keys in the keyring and -o layers
+    # (configparser lower-cases the keys of files only)
+    overrides = [[rng.choice(SECTIONS[:4]), rng.choice(KEYS[:5] + ["Mixer", "A", "Output"]),
+                  rng.choice(VALUES[:12] + ["", "", "", "alsasink device=hw:1", "cGFzcw==", "a/b=c/d", "k=v=w"])]
                  for _ in range(rng.choice([0, 0, 1, 2, 3]))]
-    keyring = [[rng.choice(SECTIONS[:3]), rng.choice(KEYS[:4]), rng.choice(["secret", "pä\udcffss", "", "x #1"])]
+    keyring = [[rng.choice(SECTIONS[:3]), rng.choice(KEYS[:4] + ["Mixer", "A", "B"]), rng.choice(["secret", "pä\udcffss", "", "x #1"])]
                for _ in range(rng.choice([0, 0, 0, 1, 2]))]
-    return {"defaults": defaults, "files": files, "keyring": keyring, "overrides": overrides}
+    # the command line gives the overrides as texts "section/key=value": they go through the real parser
+    pads = ["", "", " ", "  ", "\t"]
+    texts = [f"{rng.choice(pads)}{s_}{rng.choice(pads)}/{rng.choice(pads)}{k_}{rng.choice(pads)}={rng.choice(pads)}{v_}{rng.choice(pads)}"
+             for s_, k_, v_ in overrides]
+    return {"defaults": defaults, "files": files, "keyring": keyring, "overrides": overrides, "override_texts": texts}
 
 
 def edited_stack(stack, rng):
@@ -371,6 +378,16 @@ def canon_raw(raw):
     return out
 
 
+def parse_overrides(stack):
+    """-o section/key=value texts through mopidy.commands.config_override_type (the real parser)."""
+    from mopidy import commands
+
+    texts = stack.get("override_texts") or [f"{s}/{k}={v}" for s, k, v in stack["overrides"]]
+    if len(OVERRIDE_TEXTS) < 5000:
+        OVERRIDE_TEXTS.extend(texts)
+    return [tuple(commands.config_override_type(t)) for t in texts]
+
+
 def run_load(stack, via_load=False, mat=None):
     """-> (materialised, ("ok", rawdict) | ("raise", canonical exception))"""
     from mopidy import config as C
@@ -378,7 +395,7 @@ def run_load(stack, via_load=False, mat=None):
     mat = mat if mat is not None else Materialised(stack)
     defaults = [render_lines(d, 17 + i) for i, d in enumerate(stack["defaults"])]
     keyring = [(s, k, v.encode("utf-8", "surrogateescape")) for s, k, v in stack["keyring"]]
-    overrides = [tuple(o) for o in stack["overrides"]]
+    overrides = parse_overrides(stack)
     try:
         with Faults(mat):
             if via_load:
@@ -535,6 +552,7 @@ def stack_cause(stack, mat):
 
 
 RENDERED = []
+OVERRIDE_TEXTS = []
 
 
 def render_oracle_check(chk, src):
@@ -654,6 +672,40 @@ def ini_stage(chk, texts, soups=1.0):
     chk.obligation("corr:ini", "correspondence", ok)
 
 
+def override_stage(chk, texts):
+    """Model parse_override vs the real commands.config_override_type on every -o text of the run
+    plus malformed and adversarial ones."""
+    import argparse
+
+    from mopidy import commands
+
+    rng = chk.rng
+    texts = list(dict.fromkeys(texts))
+    parts = ["audio", "a/b", "x=y", "", " ", "=", "/", "k", "é", "v w", "\t", "==", "//", "alsasink device=hw:1"]
+    for _ in range(300 if chk.tier == "quick" else 3000):
+        texts.append("".join(rng.choice(parts + ["/", "=", "/", "="]) for _ in range(rng.randint(0, 6))))
+    I = Interner()
+    terms = []
+    for t in texts:
+        try:
+            obs = tuple(commands.config_override_type(t))
+        except argparse.ArgumentTypeError:
+            obs = None
+        g = "None" if obs is None else f"(Some ({I.s(obs[0])}, {I.s(obs[1])}, {I.s(obs[2])}))"
+        terms.append(f"({I.s(t)}, {g})")
+    rc, outp = vlib.coq_eval(AREA, vlib.COQ_HEADER + COQ_IMPORTS + "From Config Require Import LayersFs Override.\n" + I.header()
+                             + "Definition cases : list ocase :=\n " + g_list(terms) + ".\n"
+                             + "Eval vm_compute in mismatches ocase_ok cases.\n")
+    bad = vlib.parse_nat_list(outp)
+    ok = rc == 0 and bad == []
+    for i in (bad or [])[:5]:
+        chk.corr_failure("override", {"text": texts[i]})
+    if rc != 0 or bad is None:
+        chk.corr_failure("override", {"error": "coq evaluation failed"}, outp[-1500:])
+    chk.dist("override:texts", len(texts))
+    chk.obligation("corr:override", "correspondence", ok)
+
+
 # ------------------------------------------------------------------ main stage
 
 
@@ -734,6 +786,8 @@ def load_stage(chk):
                         chk.monitor_failure("faults_skip_only_themselves", {"call": "_load"},
                                             "removing the faulty files / unparsable lines changed the result",
                                             {**case, "without_faults": s2})
+                if via_load:
+                    validated_probe(chk, stack, mat, case, dlines)
                 # two-run monitor: frame
                 if all_asg and rng.random() < 0.4:
                     frame_probe(chk, stack, mat, out, rng, via_load, case, all_asg)
@@ -783,6 +837,61 @@ def load_stage(chk):
             chk.corr_failure("load_paths", kept[si * per + i])
     chk.obligation("corr:load", "correspondence", ok)
     chk.obligation("corr:load_paths", "correspondence", ok and ok_fs[0])
+
+
+def validated_probe(chk, stack, mat, case, dlines):
+    """The full config.load (layering + validation, nothing stubbed but the keyring): the validated
+    value of every String key is what its type makes of the LAST setter of exactly that key --
+    spellings differing in case are different keys in the keyring and -o layers."""
+    from mopidy import config as C
+    from mopidy.config import schemas as S
+    from mopidy.config import types as T
+
+    exts = []
+    for name in ["alpha", "beta", "Alpha", "x y", "é"]:
+        sc = S.ConfigSchema(name)
+        for k in KEYS:
+            sc[k] = T.String(optional=True)
+        exts.append(sc)
+    defaults = [render_lines(d, 17 + i) for i, d in enumerate(stack["defaults"])]
+    keyring = [(s, k, v.encode("utf-8", "surrogateescape")) for s, k, v in stack["keyring"]]
+    saved = C.keyring.fetch
+    try:
+        with Faults(mat):
+            C.keyring.fetch = lambda: list(keyring)
+            cfg, errs = C.load(list(mat.paths), exts, defaults, parse_overrides(stack))
+    except Exception as e:  # noqa: BLE001
+        chk.monitor_failure("load_total", {"call": "load", "exception": canon_exc(e), "cause": "validated"},
+                            f"{canon_exc(e)} escaped the full config.load", case)
+        return
+    finally:
+        C.keyring.fetch = saved
+    asgs = effective({"kind": "lines", "lines": dlines})
+    for d in stack["defaults"]:
+        asgs += effective({"kind": "lines", "lines": d})
+    for fe, order in zip(stack["files"], mat.dir_orders):
+        for src in ([fe["file"]] if "file" in fe else [m["src"] for m in order if m["eligible"]]):
+            asgs += effective(src)
+    asgs += [tuple(x) for x in stack["keyring"] + stack["overrides"]]
+    last = {}
+    for s, k, v in asgs:
+        last[(s, k)] = v
+    watched = [(sc.name, k) for sc in exts for k in KEYS] + [("audio", "mixer"), ("audio", "output")]
+    chk.dist("load:validated-probe")
+    for s, k in watched:
+        if (s, k) not in last:
+            continue
+        try:
+            want = T.String(optional=True).deserialize(last[(s, k)])
+        except ValueError:
+            want = None
+        got = cfg.get(s, {}).get(k, "<absent>")
+        if got != want:
+            variants = sorted({k2 for (s2, k2) in last if s2 == s and k2 != k and k2.lower() == k.lower()})
+            chk.monitor_failure("validated_last_setter", {"call": "load"},
+                                f"validated {s}/{k} is {got!r}, its last setter says {want!r}"
+                                + (f" (other spellings set in this stack: {variants})" if variants else ""), case)
+            return
 
 
 def reload_probe(chk, stack, mat, via_load, rng, case, builders, kept, extra, preset=None):
@@ -841,6 +950,7 @@ def frame_probe(chk, stack, mat, out, rng, via_load, case, all_asg):
         for src in ([fe["file"]] if "file" in fe else [m["src"] for m in fe["dir"]]):
             src["lines"] = filt([tuple(x) for x in src["lines"]])
     s2["overrides"] = [o for o in s2["overrides"] if (o[0] == s and o[1] == k) or rng.random() < 0.5]
+    s2.pop("override_texts", None)
     s2["keyring"] = [o for o in s2["keyring"] if (o[0] == s and o[1] == k) or rng.random() < 0.5]
     mat2, out2 = run_load(s2, via_load)
     same_order = mat2.dir_orders is not None
@@ -888,6 +998,8 @@ def run(chk):
 
     logging.disable(logging.CRITICAL)
     RENDERED.clear()
+    OVERRIDE_TEXTS.clear()
     load_stage(chk)
     if not chk.replay_case:
         ini_stage(chk, RENDERED)
+        override_stage(chk, OVERRIDE_TEXTS)
